@@ -455,6 +455,7 @@ func c19(r *core.Run) {
 				durVals = paramArgs(p, d, 0)
 			}
 		}
+		cbVals := append([]ssa.Value{d}, durVals...) // the callbacks may be notified inside the re-arm helper, with its parameter
 		for _, dv := range durVals {
 			for _, lf := range valueLeaves(dv, nil, 0) {
 				if isAnnounced(lf.V) {
@@ -525,7 +526,7 @@ func c19(r *core.Run) {
 				continue
 			}
 			isDur := false
-			for _, dv := range durVals {
+			for _, dv := range cbVals {
 				if c.Common().Args[0] == dv {
 					isDur = true
 				}
